@@ -182,3 +182,47 @@ def r_rpath_exact(a: str, b: str) -> bool:
         return R(False)
     rel = rp[len('$ORIGIN'):].lstrip('/') or '.'
     return R(posixpath.normpath(posixpath.join(a, rel)) == posixpath.normpath(b))
+
+
+# ---- what a static library forwards to whoever links it -----------------------------------------
+from bfg9000.file_types import SharedLibrary as _SharedLibrary
+
+
+class _SLinker:
+    pass
+
+
+class _FakeStaticLink:
+    linker = _SLinker()
+
+
+def f_static_forward(kinds: List[int]) -> bool:
+    """StaticLink._fill_output: a static library forwards *every* library it was given -- static
+    ones and project shared libraries alike -- in the given order, to the step that finally links
+    it (a shared library's symbols are needed by the archive's members just the same)
+    pre: 1 <= len(kinds) <= 3 and all(0 <= k < 2 for k in kinds)
+    post: _
+    """
+    libs = []
+    for i, k in enumerate(kinds):
+        if k == 0:
+            libs.append(StaticLibrary(Path('d%d/libs%d.a' % (i, i)), 'elf', 'c'))
+        else:
+            libs.append(_SharedLibrary(Path('d%d/libd%d.so' % (i, i)), 'elf', 'c'))
+    obj = _FakeStaticLink()
+    obj.user_options = opts.option_list(['-Wl,--x'])
+    obj.user_libs = libs
+    obj.user_packages = []
+    out = StaticLibrary(Path('libout.a'), 'elf', 'c')
+    blink.StaticLink._fill_output(obj, out)
+    fwd = out.forward_opts
+    ok = len(fwd.libs) == len(libs) and all(a is b for a, b in zip(fwd.libs, libs))
+    ok = ok and list(fwd.link_options) == ['-Wl,--x']
+    ok = ok and len(out.linktime_deps) == len(libs)
+    # and the final link sees them all
+    res = _real_link_libs([out])
+    order = [o.library for o in res._internal_options if isinstance(o, opts.lib)]
+    for lib in libs:
+        if not any(o is lib for o in order):
+            ok = False
+    return R(ok)
